@@ -5,7 +5,7 @@
     correspondence check runs against /repo. *)
 From Coq Require Import ZArith List Bool.
 From PV Require Import Model.Base Model.Sampler Model.SamplerSpec
-     Proofs.SamplerArr Proofs.SamplerChan Proofs.SamplerNested.
+     Proofs.SamplerArr Proofs.SamplerChan Proofs.SamplerNested Proofs.SamplerMask.
 Import ListNotations.
 Open Scope Z_scope.
 
@@ -226,3 +226,25 @@ Theorem c06_weight_one_trap :
     weight_sum T zero add (ms1 ++ true :: ms2) (ws1 ++ w :: ws2) = add zero w.
 Proof. exact weight_one_trap. Qed.
 Print Assumptions c06_weight_one_trap.
+
+(** the SLM mask window (XY mode) ends with the first real pulse of the global
+    non-DMM channel that starts earliest *)
+Theorem c06_mask_window :
+  forall (T : Type) (chans : list (chan T)) (ti tf : Z),
+    find_mask_times T chans = Some (ti, tf) ->
+    (exists c : chan T,
+        In c chans /\ c_global T c = true /\ c_dmm T c = false /\
+        first_real_pulse T c = Some (ti, tf)) /\
+    (forall (c : chan T) (ti' tf' : Z),
+        In c chans -> c_global T c = true -> c_dmm T c = false ->
+        first_real_pulse T c = Some (ti', tf') -> ti <= ti').
+Proof. exact mask_window_spec. Qed.
+Print Assumptions c06_mask_window.
+
+Theorem c06_mask_window_none :
+  forall (T : Type) (chans : list (chan T)),
+    find_mask_times T chans = None ->
+    forall c : chan T, In c chans -> c_global T c = true -> c_dmm T c = false ->
+      first_real_pulse T c = None.
+Proof. exact mask_window_none. Qed.
+Print Assumptions c06_mask_window_none.
